@@ -103,7 +103,7 @@ def main():
     timeout_ms = 20000 if tier == 'quick' else 60000
     axioms = smt.class_axioms()
     smt._NO_RETRY[:] = [k['obligation'] for k in load_known_findings() if k.get('status') == 'open']
-    results = verify.verify_many(spec, P['functions'], axioms + smt.literal_axioms(), timeout_ms)
+    results = verify.verify_many(spec, P['functions'], axioms + smt.literal_axioms(), timeout_ms, pid=pid)
     refused = [(r.key, r.refused) for r in results if r.refused]
     obls, canaries = [], []
     per_fn = []
